@@ -29,7 +29,7 @@ MANIFEST = dict(
          "oracle (restricted pattern pool); utf8_valid is differentially tested against std::str::from_utf8 and "
          "Python's decoder, not proved against a Unicode specification; only-matching / per-match MULTI-LINE paths "
          "have layout + record-origin theorems (every record = prelude with stated coordinates + stated input bytes), with "
-         "the known finding MultiLineOnlyMatchingColumnIsBlockRelative (column = offset in the block); JSON round trip is for rg's configuration without -m; that the searcher's "
+         "the observation (outside the property) MultiLineOnlyMatchingColumnIsBlockRelative (column = offset in the block); JSON round trip is for rg's configuration without -m; that the searcher's "
          "events are the input's lines is C03's theorem (checked here by the oracle)",
     technique="Coq proof over executable models + extracted-model/implementation correspondence + input re-location oracle",
     design="§7 C09")
@@ -272,7 +272,7 @@ def check_vimgrep(ctx, c, out, v, where, multi=False):
               got=got.get(path, []), expected=want, multi=multi)
 
 
-KNOWN_MLOCOL = "MultiLineOnlyMatchingColumnIsBlockRelative"
+OBS_MLOCOL = "observation_MultiLineOnlyMatchingColumnIsBlockRelative"
 
 
 def check_only_matching_multi(ctx, c, out, json_msgs, v, where):
@@ -280,8 +280,9 @@ def check_only_matching_multi(ctx, c, out, json_msgs, v, where):
     (Python re over the whole file): for every non-empty match, one record per line on whose content it has bytes, in
     order, carrying that line's number, the column of the shown part's first byte... as far as the match starts on
     that line (1 + its offset in the line), the byte offset of the match, and exactly those input bytes.  What the
-    code prints as column is 1 + the match's start in the searcher's block (theorem 11): accepted as the known class
-    MultiLineOnlyMatchingColumnIsBlockRelative when (and only when) it is exactly that number."""
+    code prints as column is 1 + the match's start in the searcher's block (theorem 11): accepted, and counted as
+    observation_MultiLineOnlyMatchingColumnIsBlockRelative (outside C09, whose statement excludes only-matching), when
+    (and only when) it is exactly that number."""
     fl = c["flags"]
     if (not fl.get("line_number") or fl.get("invert") or fl.get("passthru") or fl.get("after") or fl.get("before")):
         return
@@ -339,8 +340,8 @@ def check_only_matching_multi(ctx, c, out, json_msgs, v, where):
                   file=path, record=r_, expected=w_)
             elif w_[1] is not None and r_[1] != w_[1]:
                 if r_[1] == bc:
-                    ctx.known(KNOWN_MLOCOL, "%s pattern=%r file=%r flags=%r: record %r, column in its line %d"
-                              % (where, c["pattern"], data, fl, r_, w_[1]))
+                    # observation outside the property (C09 excludes only-matching): the proved model says exactly this
+                    feat[OBS_MLOCOL] = feat.get(OBS_MLOCOL, 0) + 1
                 else:
                     v("multi-line -o: the column of a record is neither the match's column in its line nor its "
                       "1-based offset in the block", file=path, record=r_, expected=w_, block_column=bc)
@@ -583,7 +584,7 @@ def corpus():
         mk("a", dict(L, crlf=1), [b"xa\r\nb\r\na"]),
         mk("a", L, [b"\xffa\xff\n\xc3\xa9a\n"]),
         mk("a", dict(L, passthru=1), [b"x\na\ny", b"q\n"]),
-        mk(r"[ab]1\n", dict(L, multiline=1), [b"a1\nb1\n"]),     # MultiLineOnlyMatchingColumnIsBlockRelative: 2:4:b1
+        mk(r"[ab]1\n", dict(L, multiline=1), [b"a1\nb1\n"]),     # observation MultiLineOnlyMatchingColumnIsBlockRelative: 2:4:b1
         mk(r"c\nd|e", dict(L, multiline=1), [b"abc\nde\n", b"xc\nd\nq\ne\n"]),
         mk(r"b\r\nb|a", dict(L, multiline=1, crlf=1), [b"ab\r\nba\r\n"]),
         mk(r"b\nc", dict(L, multiline=1), [b"ab\ncd\n"]),                  # column_number_multi_line of the suite
